@@ -101,6 +101,8 @@ var ClientNames = []Client{
 	{Text: `"Frank's phone"`, Name: "Frank's phone"},
 	{Text: `'Mary\'s\, John\'s\, and Boris\'s laptops'`, Name: "Mary's, John's, and Boris's laptops"},
 	{Text: `"a\|b"`, Name: "a|b"},
+	{Text: `'the \'boss\''`, Name: "the 'boss'"},
+	{Text: `"say \"hi\""`, Name: `say "hi"`},
 	{Text: "Zed", Name: "Zed"},
 	{Text: "alice-pc", Name: "alice-pc"},
 	{Text: "Bob", Name: "Bob"},
@@ -148,7 +150,7 @@ var ClientIPs = []netip.Addr{
 // RequestClientNames are request client names.
 var RequestClientNames = []string{
 	"", "Mom", "kids", "dead", "cafe", "Frank's laptop", "Frank's phone",
-	"Mary's, John's, and Boris's laptops", "a|b", "Zed", "alice-pc", "Bob", "mom", "Dad", "kids/tablet", "10.0.0.0/33",
+	"Mary's, John's, and Boris's laptops", "a|b", "Zed", "alice-pc", "Bob", "mom", "Dad", "kids/tablet", "10.0.0.0/33", "the 'boss'", `say "hi"`, `the 'boss\`,
 }
 
 // CTagValues are client tags.
